@@ -193,8 +193,14 @@ class DataPacketReceiver(Elaboratable):
                 crc5_failed  = (expected_crc5 != header.crc5)
                 crc16_failed = (crc16.crc     != header.crc16)
 
+                # A header that isn't followed by a payload (a deferred one, or one we're dropping) can be
+                # followed by the next header packet right away; don't swallow its HPSTART.
+                with m.If(stream_matches_symbols(sink, SHP, SHP, SHP, EPF)):
+                    m.d.comb += crc16.clear.eq(1)
+                    m.next = "RECEIVE_DW0"
+
                 # If either of our CRCs fail, this isn't going to be followed by a DPP we care about.
-                with m.If(crc5_failed | crc16_failed):
+                with m.Elif(crc5_failed | crc16_failed):
                     m.next = "WAIT_FOR_HPSTART"
 
                 # Otherwise, if we have a data packet header, move to capturing our data.
